@@ -4,7 +4,7 @@
    when Gen/Database.vo or Model/Db.vo changed.  Same rules as Extract.v: ExtrOcamlBasic only; N, positive,
    nat, ascii and string stay the extracted inductives. *)
 From Coq Require Import ExtrOcamlBasic.
-From RbxVerif Require Db Database.
+From RbxVerif Require Db DbOwner Database.
 Extraction Language OCaml.
 Set Extraction KeepSingleton.
-Extraction "dbmodel.ml" Db.find_desc_bin Db.find_desc_xml Db.find_default Db.get_class Database.database.
+Extraction "dbmodel.ml" Db.find_desc_bin Db.find_desc_xml Db.find_default Db.get_class DbOwner.default_obs Database.database.
